@@ -17,7 +17,7 @@ echo "== demo with patch" >> $LOG
 cargo test --offline -p $DEMO_PKG ${FEATURES:+--features $FEATURES} --test $TEST >> $LOG 2>&1; WITH=$?
 echo "== existing tests with patch" >> $LOG
 EXIST=0
-cargo test --offline -p cedar-policy-core --lib ${FEATURES:+--features $FEATURES} 2>&1 | tail -4 >> $LOG; [ ${PIPESTATUS[0]} -eq 0 ] || EXIST=1
+cargo test --offline -p cedar-policy-core --lib ${CORE_FEATURES:+--features $CORE_FEATURES} 2>&1 | tail -4 >> $LOG; [ ${PIPESTATUS[0]} -eq 0 ] || EXIST=1
 cargo test --offline -p cedar-policy --lib ${FEATURES:+--features $FEATURES} 2>&1 | tail -4 >> $LOG; [ ${PIPESTATUS[0]} -eq 0 ] || EXIST=1
 for pkg in "$@"; do cargo test --offline -p $pkg 2>&1 | tail -4 >> $LOG; [ ${PIPESTATUS[0]} -eq 0 ] || EXIST=1; done
 git apply -R seed_patch.diff
